@@ -210,10 +210,12 @@ def HStep (c : Nat) (p0 : PImg) (k : Nat) : Step → Prop
   | _ => False
 
 theorem tornEff_simple (p : PImg) (e e' : PEff) (hl : ∀ k i es sib pid, e ≠ .leaf k i es sib pid)
+    (hi : ∀ k seps pid, e ≠ .inode k seps pid)
     (h : tornEff p e = some e') : e' = e := by
-  cases e <;> simp [tornEff] at h <;> try (exact h.symm)
+  cases e <;> (try simp [tornEff] at h) <;> try (exact h.symm)
   case slot i x => exact h.2.symm
   case leaf k i es sib pid => exact absurd rfl (hl k i es sib pid)
+  case inode k seps pid => exact absurd rfl (hi k seps pid)
 
 theorem ng_applyEff {N : List Nat} {c k : Nat} {p0 p : PImg} {e : PEff} {pid : Nat}
     (h : NG N c p0 k p) (hs : HStep c p0 k (.pg e pid)) : NG N c p0 k (applyEff e p) := by
@@ -242,6 +244,12 @@ theorem hstep_not_leaf {c k : Nat} {p0 : PImg} {e : PEff} {pid : Nat} (hs : HSte
   subst he
   simp [HStep] at hs
 
+theorem hstep_not_inode {c k : Nat} {p0 : PImg} {e : PEff} {pid : Nat} (hs : HStep c p0 k (.pg e pid)) :
+    ∀ kk seps pd, e ≠ .inode kk seps pd := by
+  intro kk seps pd he
+  subst he
+  simp [HStep] at hs
+
 /-- a harmless step keeps every power-loss image in the class -/
 theorem allImgs_hstep {N : List Nat} {c k : Nat} {p0 : PImg} (fs : FS) (s : Step)
     (h : AllImgs fs (NG N c p0 k)) (hs : HStep c p0 k s) : AllImgs (fs.step s) (NG N c p0 k) := by
@@ -251,7 +259,7 @@ theorem allImgs_hstep {N : List Nat} {c k : Nat} {p0 : PImg} (fs : FS) (s : Step
     intro p hp
     refine ⟨ng_applyEff hp hs, ?_⟩
     intro e' ht
-    have := tornEff_simple p e e' (hstep_not_leaf hs) ht
+    have := tornEff_simple p e e' (hstep_not_leaf hs) (hstep_not_inode hs) ht
     subst this
     exact ng_applyEff hp hs
   case ps => exact allImgs_ps fs _ (allImgs_pv fs _ h)
